@@ -130,7 +130,7 @@ def gen_history(rng: random.Random, nloc: int, depth: int, nops: int, wrapped: b
             # relations join copies on DIFFERENT locations (a transfer); what invalidating one of two related paths on the
             # same location should do to the other is not fixed by the property (the code follows the relation)
             a, b = rng.randrange(nreg), rng.randrange(nreg)
-            if rloc[a] != rloc[b] and not (wrapped and (a in inner or b in inner)):
+            if (rloc[a] != rloc[b] or rng.random() < 0.3) and not (wrapped and (a in inner or b in inner)):
                 ops.append(("rel", a, b))
         else:
             p = rng.choice(pool)
@@ -171,21 +171,21 @@ class C21(Property):
             "registered paths, their ancestors, the root and unknown paths) over path trees of depth 1..4 on 1..3 locations; after "
             "every operation get_data_locations is read for every (node path, location) on the real DefaultDataManager, on the Lean "
             "model of the code as written (driver) and on a reference registry (no valid_paths cache, invalidation = every object of "
-            "that location in the subtree) = the property monitor. Non-trivial = distinct history with an invalidation followed by a "
+            "that location stored in the subtree) = the property monitor; relations join any two registrations (same or different location). Non-trivial = distinct history with an invalidation followed by a "
             "registration or relation.")
     trusted_base = [
         "modelled, not verified: pathlib.Path(p).parts and posixpath.join on normalised absolute paths; dict/list/set semantics; "
         "DataLocation objects as heap cells with a mutable validity flag; `available` events are not modelled",
         "a registration on a wrapped location (mount points, get_inner_path) enters the Lean model as its three primitive steps: register outer, register inner, relate",
     ]
-    technique = ("Lean 4 model of the trie with object identities (heap) and the valid_paths cache; negative witnesses by kernel "
-                 "evaluation and induction on the step budget; invariants for relation-free histories; differential correspondence")
-    level_text = ("grade A-: the code as written is modelled with object identities; both known defects are proved on witnesses "
-                  "(relate-after-invalidate ignored because of stale valid_paths; invalidate_location diverges for every step budget); "
-                  "for every history of registrations and invalidations without relations the valid_paths cache is proved exact "
-                  "(registry_refines_spec_partial) and re-registration always restores availability; invalidation proved to only "
-                  "invalidate; model compared with the real DefaultDataManager after every "
-                  "operation of random histories")
+    technique = ("Lean 4 model of the trie with object identities (heap) and the valid_paths cache; an inductive invariant over every "
+                 "history (registrations, relations, invalidations); differential correspondence")
+    level_text = ("grade A: for every history of registrations, relations and invalidations of the repaired code (fix 5f6015f): the "
+                  "valid_paths cache never hides a valid location, so put's test is the cache-free test (registry_refines_spec); "
+                  "invalidate_location always returns (invalidate_total), leaves nothing available on that location at or beneath the "
+                  "path, touches no object of another location and only clears validity (invalidate_subtree); a registration always "
+                  "makes the path available (reregister_available); model compared with the real DefaultDataManager after every "
+                  "operation of random histories, the three histories that failed before the fix kept as regression guards")
     level_note = ("Lean kernel, axioms within {propext, Classical.choice, Quot.sound}; hand-written model tied to the code by the "
                   "correspondence check")
     assumptions = ["paths are normalised absolute POSIX paths; one location name per deployment"]
@@ -310,24 +310,16 @@ class C21(Property):
 
                 key, shown = None, diffs[0]
                 if op[0] == "inv":
-                    b_extra = [d for d in diffs if d[1] == op[1] and beneath(d[0], op[2]) and not [x for x in d[3] if x not in d[2]]]
                     other_loc = [d for d in diffs if d[1] != op[1]]
+                    b_extra = [d for d in diffs if d[1] == op[1] and beneath(d[0], op[2]) and [x for x in d[2] if x not in d[3]]]
                     if other_loc:
                         key, shown = "registry:invalidate-touches-other-location", other_loc[0]
-                    elif b_extra and has_rel:
+                    elif b_extra:
                         key, shown = "registry:invalidate-skips-subtree", b_extra[0]
-                    elif has_rel and not [d for d in diffs if beneath(d[0], op[2])]:
-                        # only paths outside the invalidated subtree differ, on the invalidated location, in a history with
-                        # relations: what happens to the *other* end of a relation is not fixed by the property (the code shares
-                        # one object per registration, the reference too, but they reach it from different nodes). Not judged.
-                        ctx.count("unspecified:relation-collateral")
-                        break
                 else:
                     q, l, real, want = diffs[0]
                     walk(dm.path_mapper._filesystem, [], l)
-                    missing = [x for x in want if x not in real]
-                    extra = [x for x in real if x not in want]
-                    if missing and not extra and stale and has_rel:
+                    if [x for x in want if x not in real] and not [x for x in real if x not in want] and stale and has_rel:
                         key = "registry:stale-valid-paths-hide-new-location"
                 q, l, real, want = shown
                 self._fail(ctx, key or "registry:differs-from-reference",
